@@ -870,7 +870,7 @@ fn big_run(s: &str) -> bool {
     false
 }
 
-fn has_big_number(root: &Relations) -> bool {
+pub fn has_big_number(root: &Relations) -> bool {
     root.entries().any(|e| {
         e.relations().any(|r| match guard(|| r.version()) {
             Some(Some((_, v))) => big_run(&v.upstream_version) || big_run(v.debian_revision.as_deref().unwrap_or("0")),
